@@ -787,8 +787,14 @@ class CompartmentalSystem(Statement):
         return (
             self._t == other._t
             and nx.to_dict_of_dicts(self._g) == nx.to_dict_of_dicts(other._g)
-            and self.dosing_compartments == other.dosing_compartments
+            and self._dosing_compartments_or_none() == other._dosing_compartments_or_none()
         )
+
+    def _dosing_compartments_or_none(self):
+        try:
+            return self.dosing_compartments
+        except ValueError:  # No dose or no central compartment (yet)
+            return None
 
     def __hash__(self):
         # NOTE: A networkx graph hashes by identity, equal systems must hash equal
